@@ -4,13 +4,13 @@
 (* TRACE_FILE is one observed execution of RewritingContext.apply(); every *)
 (* step of this spec consumes one line and prints its verdict.             *)
 (***************************************************************************)
-EXTENDS G1Findings, Json, IOUtils, TLC, TLCExt
+EXTENDS G1Whole, Json, IOUtils, TLC, TLCExt
 
 Traces == ndJsonDeserialize(IOEnv.TRACE_FILE)
 VARIABLE tid
 
 \* <<name, in-domain, holds>>
-Clauses(X) ==
+Clauses(X, K) ==
   LET t == X.t
       dom == DomG1(t)
       done == dom /\ Completed(t)
@@ -28,9 +28,25 @@ Clauses(X) ==
         <<"C06_DataNever", done, C06_DataNever(X)>>,
         <<"C06_Partition", done, C06_Partition(X)>>,
         <<"C06_Entries", done, C06_Entries(X)>>,
-        <<"C06_EmptyFunctionGone", done, C06_EmptyFunctionGone(X)>> >>
+        <<"C06_EmptyFunctionGone", done, C06_EmptyFunctionGone(X)>>,
+        <<"C03_Completes", IF dom THEN K.preOk ELSE FALSE, Completed(t)>>,
+        <<"C03_Fallthrough", IF done THEN K.dom ELSE FALSE, C03_Fallthrough(K)>>,
+        <<"C03_BranchCall", IF done THEN K.dom ELSE FALSE, C03_BranchCall(K)>>,
+        <<"C03_Returns", IF done THEN K.dom ELSE FALSE, C03_Returns(K)>>,
+        <<"C03_NoBuriedTerminator", IF done THEN K.dom ELSE FALSE, C03_NoBuriedTerminator(X)>>,
+        <<"C03_EndpointsAlive", done, C03_EndpointsAlive(X)>>,
+        <<"C05_Completes", dom /\ t.fault = 0, Completed(t)>>,
+        <<"C05_BlocksInside", dom, C05_BlocksInside(t)>>,
+        <<"C05_NoOverlap", dom, C05_NoOverlap(t)>>,
+        <<"C05_Closed", dom, C05_Closed(t)>>,
+        <<"C05_ZeroSizedJustified", done, C05_ZeroSizedJustified(t)>>,
+        <<"C05_Addresses", done, C05_Addresses(t)>>,
+        <<"C05_Serializes", dom, C05_Serializes(t)>>,
+        <<"C05_FailIsTheFault", dom /\ t.fault > 0 /\ t.fault <= t.ninv, C05_FailIsTheFault(t)>>,
+        <<"C05_FailCfgObject", dom /\ t.exc # "", C05_FailCfgObject(t)>>,
+        <<"C05_FailNoStranded", dom /\ t.exc # "", C05_FailNoStranded(t)>> >>
 
-Diff(name, X) ==
+Diff(name, X, K) ==
   CASE name = "C01_Bytes" -> C01_Diff(X)
     [] name = "C02_Positions" -> SetDiff(ExpOrigSymFacts(X), ObsOrigSymFacts(X))
     [] name = "C02_Proxy" -> SetDiff(ExpProxied(X) \cup PreProxied(X), ObsProxied(X))
@@ -44,17 +60,30 @@ Diff(name, X) ==
     [] name = "C06_Entries" -> SetDiff(UNION {ExpEntryFacts(X, nm) : nm \in SecNames(X.t.pre)},
                                        UNION {ObsEntryFacts(X.t.post, nm) : nm \in SecNames(X.t.pre)})
     [] name = "C06_EmptyFunctionGone" -> SetDiff(ExpLiveFns(X), ObsFnNames(X) \cap PreFnNames(X))
+    [] name = "C03_Fallthrough" -> SetDiff(K.exp.ft, ByType(K.obs, {"Fallthrough"}))
+    [] name = "C03_BranchCall" -> SetDiff(K.exp.bc, ByType(K.obs, {"Branch", "Call"}))
+    [] name = "C03_Returns" -> SetDiff(K.exp.ret, ByType(K.obs, {"Return"}))
+    [] name = "C03_NoBuriedTerminator" -> Buried(X.t.post)
+    [] name = "C03_EndpointsAlive" -> <<ObsStale(X.t.post), ObsOddSources(X.t.post)>>
     [] name = "C01_Completes" -> <<X.t.exc, X.t.stage>>
+    [] name = "C03_Completes" -> <<X.t.exc, X.t.stage>>
+    [] name = "C05_Completes" -> <<X.t.exc, X.t.stage>>
+    [] name = "C05_Closed" -> <<ObsStale(X.t.post), SelectSeq(X.t.whole.aux, LAMBDA a : a.stale # 0),
+                                 SelectSeq(X.t.post.syms, LAMBDA y : y.k \in {"stale", "stale_proxy"})>>
+    [] name = "C05_Serializes" -> <<X.t.whole.ser_ok, X.t.whole.ser_err>>
+    [] name \in {"C05_FailIsTheFault", "C05_FailCfgObject", "C05_FailNoStranded"} ->
+         <<X.t.exc, X.t.whole.cfg_same_obj, X.t.whole.cfg_type>>
     [] OTHER -> <<>>
 
 Verdict(t) ==
   LET X == Ctx(t)
-      cs == Clauses(X)
+      K == CfgK(X)
+      cs == Clauses(X, K)
       bad == SelectSeq(cs, LAMBDA c : c[2] /\ ~c[3])
       indom == SelectSeq(cs, LAMBDA c : c[2])
   IN  [id |-> t.id,
        indomain |-> [i \in 1..Len(indom) |-> indom[i][1]],
-       failed |-> [i \in 1..Len(bad) |-> [clause |-> bad[i][1], diff |-> Diff(bad[i][1], X), kf |-> KfTags(X, bad[i][1])]],
+       failed |-> [i \in 1..Len(bad) |-> [clause |-> bad[i][1], diff |-> Diff(bad[i][1], X, K), kf |-> KfTags(X, K, bad[i][1])]],
        exc |-> t.exc]
 
 Init == tid = 1
